@@ -49,6 +49,79 @@ def mutate(rng, toks, defs):
     return "insert", t, False
 
 
+def map_pat(p, f):
+    return [[(t[0], map_pat(t[1], f)) if t[0] in "opg" else f(t) for t in alt] for alt in p]
+
+
+def refs_of(p, acc):
+    for alt in p:
+        for t in alt:
+            if t[0] == 'f':
+                acc.append(t[1])
+            elif t[0] in "opg":
+                refs_of(t[1], acc)
+    return acc
+
+
+def value_mutant(rng, g):
+    """mutations of the grammar VALUE (so that the Lean model of the semantic checks can predict the verdict):
+    reference renaming (production, regular definition), definition duplication of each kind, and harmless
+    twins of each (undeclared token: a warning; unused extra definitions)"""
+    lex = [tuple(x) for x in g["lex"]]
+    syn = [tuple(x) for x in g["syn"]]
+    k = rng.choice(["rename_prod", "rename_regdef", "dup_def", "dup_def", "undeclared_token", "extra_unused_def", "nested_undefined_regdef",
+                    "undefined_in_unused_regdef"])
+    if k == "rename_prod":
+        idx = [(i, j) for i, (h, b, _, _) in enumerate(syn) for j, (kd, n) in enumerate(b) if kd == 0]
+        if not idx:
+            return None
+        i, j = rng.choice(idx)
+        h, b, a, aid = syn[i]
+        b = list(b)
+        b[j] = (0, rng.choice(["Undefined9", "Zz", "N0x"]))
+        syn[i] = (h, b, a, aid)
+    elif k == "rename_regdef":
+        cands = [i for i, (_, _, p) in enumerate(lex) if refs_of(p, [])]
+        if not cands:
+            return None
+        i = rng.choice(cands)
+        kd, n, p = lex[i]
+        victim = rng.choice(refs_of(p, []))
+        lex[i] = (kd, n, map_pat(p, lambda t: ('f', "_undefined9") if t == ('f', victim) else t))
+    elif k == "dup_def":
+        if not lex:
+            return None
+        d = rng.choice(lex)
+        lex.insert(rng.randint(0, len(lex)), (d[0], d[1], rng.choice([d[2], [[('l', 113)]]])))
+    elif k == "undeclared_token":
+        if not syn:
+            return None
+        i = rng.randrange(len(syn))
+        h, b, a, aid = syn[i]
+        if b and b[0][1] in ("empty", "error"):
+            return None
+        syn[i] = (h, list(b) + [(1, "undeclared9")], a, aid)
+    elif k == "extra_unused_def":
+        lex.append(rng.choice([(2, "_unused9", [[('l', 113)]]), (0, "unused9", [[('l', 113)]]), (1, "!unused9", [[('l', 113)]])]))
+    elif k == "nested_undefined_regdef":
+        lex.append((0, "nest9", [[('l', 113), ('o', [[('p', [[('g', [[('f', "_undefined9")]])]])]])]]))
+    else:
+        lex.append((2, "_unused9", [[('f', "_undefined9")]]))
+    return k, {"lex": lex, "syn": syn}
+
+
+def category(out):
+    if "duplicate token def" in out or "duplicate ignored token def" in out or "already exists" in out:
+        return "dup"
+    if "empty production alternative" in out:
+        return "emptyalt"
+    if "undefined symbol used in production" in out:
+        return "undefprod"
+    if "undefined regular definition" in out:
+        return "undefregdef"
+    return "none"
+
+
 RAW_BAD = ["A : \"b\" ; /* B : C ;", "A : \"\\q\" ;", "a : 'ab' ;", "a : '' ;", "A : \"b ;", "A : `b ;", "A : b << x ;", "a : '\\400' ;", "a : '\\uD800' ;",
            "a : 'x' ; \x00", "a : '\xff' ;", "A : \"x\x80y\" ;", "a : 'x' ; /* \x80 */", "a : '\x80' ;", "A : \"\xc0\x80\" ;", "a : 'x' ; // \x81", "A : : b ;", "A : b | ( b ;", "A : b ; ;", "A : b", "A b ;", ": A b ;", "a : 'x' -- 'z' ;",
            "A : b | ;", "A : ;", "A : B ;", "a : _x ;", "a : 'x' ; a : 'y' ;", "!a : 'x' ; !a : 'y' ;", "_a : 'x' ; _a : 'y' ; b : _a ;"]
@@ -70,6 +143,7 @@ def run(tier):
     nmut = 40 if tier == "quick" else 250
     b = batch.Batch("c14")
     cases = []
+    vcases = []
     try:
         for k in range(nbase):
             lex = gram.rand_lex(ck.rng, regdef_mode=ck.rng.choice(["single", "multi"]))
@@ -84,6 +158,11 @@ def run(tier):
                         defs.append((start, i + 1))
                     start = i + 1
             cases.append(("base", b.add(None, flags=["-a"], text=text), False, text))
+            for _ in range(max(6, nmut // 4)):
+                vm = value_mutant(ck.rng, {"lex": lex, "syn": syn})
+                if vm:
+                    vtxt = gram.render(vm[1])
+                    vcases.append((vm[0], b.add(None, flags=["-a"], text=vtxt), vm[1], vtxt))
             for _ in range(nmut):
                 kind, t2, ill = mutate(ck.rng, toks, defs)
                 txt = " ".join(t2) + "\n"
@@ -131,12 +210,44 @@ def run(tier):
                     why = "lexical errors" if errs or illegal else "token sequence not in spec/gocc2.ebnf" if not in_lang else kind
                     ck.violation("an ill-formed grammar (%s) was accepted with exit status 0: %r" % (why, txt[:200]),
                                  {"bnf": txt, "kind": kind, "scanner": sc[:400], "earley": e, "stdout": it["out"], "stderr": it["err"][-400:]})
+        # semantic half: the Lean model of the semantic checks predicts the verdict of every value-level mutant
+        mlines = []
+        for k, (_, _, g2, _) in enumerate(vcases):
+            mlines += ["G %d %s" % (k, gram.encode(g2)), "semcheck %d" % k]
+        mout = C.run_model(mlines, timeout=3000)[1::2] if mlines else []
+        vstats = {}
+        for (kind, i, g2, vtxt), mv in zip(vcases, mout):
+            it = b.items[i]
+            outp = (it["out"] + it["err"])
+            cat = category(outp)
+            mcat = mv.split()[0] if mv else "?"
+            vstats.setdefault(kind, {"n": 0, "model_rejects": 0, "gocc_rejects": 0})
+            vstats[kind]["n"] += 1
+            vstats[kind]["model_rejects"] += mcat != "ok"
+            vstats[kind]["gocc_rejects"] += it["rc"] != 0
+            stats["mutants"] += 1
+            if mcat != "ok":
+                stats["ill_formed"] += 1
+                stats["semantic"] += 1
+                nontrivial.add(vtxt)
+                stats["rejected"] += it["rc"] != 0
+            if it["hang"]:
+                ck.violation("gocc did not terminate on a semantically mutated grammar", {"bnf": vtxt})
+            elif mcat != "ok" and it["rc"] == 0:
+                ck.violation("a grammar the property calls ill-formed (%s: %s) was accepted with exit status 0" % (kind, mv),
+                             {"bnf": vtxt, "kind": kind, "model": mv, "stdout": it["out"], "stderr": it["err"][-400:]})
+            elif (mcat if mcat != "ok" else "none") != cat:
+                ck.violation("correspondence broken: semantic checks of gocc answer `%s`, the model semCheck answers `%s` (%s)" % (cat, mv, kind),
+                             {"bnf": vtxt, "kind": kind, "model": mv, "gocc_rc": it["rc"], "stderr": it["err"][-400:]}, found_input=False)
+        stats["value_mutants"] = vstats
     finally:
         b.close()
     ck.proof_failures(failed, "C14/C15 theorems")
     ck.cov.update({"evaluations": stats["mutants"] + stats["base"], "distinct_nontrivial": len(nontrivial), "stats": stats,
                    "rule": "well-formed random grammars and token-level mutants of them (deletion, insertion, substitution at random positions with a vocabulary of every token kind), "
                            "undefined production / regular definition references, duplicated definitions, emptied alternatives, plus hand-written lexically broken files; "
+                           "value-level mutants (reference renaming, duplication of each kind of definition, undefined regular definition nested in [..]{..}(..) or inside an unused definition, and harmless twins: undeclared token, unused definitions) "
+                           "whose verdict and error category are predicted by the Lean model semCheck (proved equivalent to the property's clauses) and compared with gocc's; "
                            "ill-formed = scanner error or ILLEGAL token, or token sequence outside L(spec/gocc2.ebnf) by Earley, or semantic by construction; non-trivial = distinct ill-formed files",
                    "samples": [c[3][:200] for c in cases if c[0] != "base"][:3]})
     ck.assumptions += ["token-level conformance uses the real scanner's token types (tied to its Lean model in C13) and an Earley recogniser on the ebnf read independently of gocc",
